@@ -229,6 +229,15 @@ int main(int argc, char** argv)
         docs.push_back(d);
       }
     }
+    // a few complete first documents as well (the token strings above are mostly rejected): marked with token count 0
+    {
+      static const char* FIRST[] = {"[1,[2],{\"a\":3}]", "{\"a\":1,\"b\":[2]}", "\"s\"", "5", "[1,\n2,\n"};
+      for(size_t i = 0; i < sizeof(FIRST) / sizeof(*FIRST); ++i)
+      {
+        Doc* d = new Doc; d->ntok = 0; d->text = FIRST[i]; d->e = new vf::Exact(d->text, true); d->ok = false; d->line = d->col = 0;
+        docs.insert(docs.begin(), d);
+      }
+    }
     long long n = 0;
     for(size_t i = 0; i < docs.size(); ++i)
     {
@@ -236,6 +245,7 @@ int main(int argc, char** argv)
       if(!sh.take()) continue;
       for(size_t j = 0; j < docs.size() && docs[j]->ntok <= len2; ++j)
       {
+        if(docs[j]->ntok == 0 && !docs[j]->text.empty()) continue;   // fixed first documents are not used as second ones
         if((n++ & 0xfff) == 0) { vf::watchdog_arm(20000); vf::crumb("json.reuse", sh.token(), "reuse first='" + vf::show(docs[i]->text) + "' second='" + vf::show(docs[j]->text) + "'"); }
         // the result variable is reused as well: the second parse must replace whatever the first one left in it
         Json::Parser p; Variant v2;
